@@ -7,7 +7,7 @@ From Coq Require Import List Bool NArith ZArith Arith.
 From Coq.Strings Require Import Byte.
 Import ListNotations.
 From GA.Base Require Import Bytes Case Align CorrBase.
-From GA.Model Require Import Strand Translate Orf.
+From GA.Model Require Import Strand Translate Orf Phaser.
 From GA.Corr Require Import C07.
 Local Open Scope Z_scope.
 
@@ -61,7 +61,28 @@ Definition model_ok (c : case) : bool :=
     | None, None => true
     | _, _ => false
     end
-  else true.
+  else
+    (* Phase: the code model of the best frame / strand search predicts every result exactly *)
+    let seqs := unrows (k_seqs c) in
+    match phase_all (k_translate c) (k_reverse c) (k_cutend c) (k_code c)
+                    (option_map (fun o => map snd (unrows o)) (k_orfs c)) (map snd seqs) with
+    | None => k_err c
+    | Some outs =>
+        if existsb (fun o => match o with OErr => true | _ => false end) outs then k_err c
+        else
+          negb (k_err c) &&
+          forallb (fun ro : (list byte * list byte) * outcome =>
+                     match snd ro with
+                     | OErr => false
+                     | ORes m =>
+                         match filter (fun r => bytes_eqb (unbs (r_name r)) (fst (fst ro))) (k_res c) with
+                         | [r] => Bool.eqb (r_removed r) (p_removed m) && Z.eqb (r_pos r) (p_pos m) &&
+                                  bytes_eqb (unbs (r_nt r)) (p_nt m) && bytes_eqb (unbs (r_codon r)) (p_codon m) &&
+                                  bytes_eqb (unbs (r_aa r)) (p_aa m)
+                         | _ => false
+                         end
+                     end) (combine seqs outs)
+    end.
 
 Definition judge_result (c : case) (code : code_table) (s : list byte) (r : res) : bool :=
   let nt := unbs (r_nt r) in let codon := unbs (r_codon r) in let aa := unbs (r_aa r) in
